@@ -138,7 +138,10 @@ def run(chk):
     chk.cov["matrix_size"] = len(mx)
     if not full:
         # quick tier: every (route, method, variation class) once, bodies sampled
-        keep = [r for r in mx if "|body:" not in r["cls"] or r["cls"].endswith("body:missing") or rng.random() < 0.12]
+        keep = [r for r in mx if "|body:" not in r["cls"] or r["cls"].endswith("body:missing") or rng.random() < 0.12
+                or (r["cls"].startswith(("path:rel|", "path:arel|")) and r["body"][0] == "val" and r["body"][2]["k"] == "elem")
+                or (r["method"] == "PUT" and "qualifier_type" in r["rule"] and r["cls"].startswith(("valid|body:qual", "path:valid|body:qual")))
+                or r["cls"].endswith("body:upload-samename")]
         mx_run = keep
     else:
         mx_run = mx
